@@ -189,3 +189,21 @@ def parse_f(line):
 def parse_c(line):
     a = parse_f(line)
     return a[0::2] + 1j * a[1::2]
+
+
+def independent_terminals(dev):
+    """terminal sites / boundary edges / lengths computed WITHOUT Device.terminal_info (shapely instead of
+    matplotlib Path): {name: dict(sites, boundary_edges (indices into mesh.edge_mesh.edges), length in length units)}"""
+    from shapely.geometry import Point
+    from shapely.geometry import Polygon as SPolygon
+
+    mesh = dev.mesh
+    em = mesh.edge_mesh
+    xi = dev.layer.coherence_length
+    out = {}
+    for t in dev.terminals:
+        poly = SPolygon(t.points)
+        bsites = [int(i) for i in mesh.boundary_indices if poly.contains(Point(mesh.sites[i] * xi))]
+        bedges = [int(e) for e in em.boundary_edge_indices if poly.contains(Point(em.centers[e] * xi))]
+        out[t.name] = dict(sites=np.array(bsites, dtype=int), boundary_edges=np.array(bedges, dtype=int), length=float(em.edge_lengths[bedges].sum() * xi))
+    return out
